@@ -14,7 +14,7 @@ def plan(prop, tier):
     q = tier == 'quick'
     n = 16 if q else 64
     per = 190 if q else 5000
-    return ['asan', 'plain', 'efence'], [('cmp', SEED * 1000 + i, per) for i in range(n)]
+    return ['asan', 'plain', 'efence'], [('cmp', SEED * 1000 + i, per) for i in range(n)] + [('deep', 0, 0)]
 
 
 class NoClaim(Exception):
@@ -274,6 +274,32 @@ def run_shard(shard_prop, bins, workdir, tier):
     rng = random.Random('C12-%s' % seed)
     cases = []
     expect = {}
+    if kind == 'deep':
+        # equality must not depend on how deep the values sit: trees at the parser's nesting limit
+        # and (built through the API) far beyond it
+        from . import jsonref
+        from .runner import REPO
+        lim = jsonref.nesting_limit(REPO)
+        cid = 0
+        for op, cl in ((b'[', b']'), (b'{"a":', b'}')):
+            for depth in (lim - 1, lim):
+                for leaf_a, leaf_b, e in ((b'1', b'1', True), (b'1', b'2', False), (b'"x"', b'"x"', True), (b'null', b'false', False), (b'{"k":true}', b'{"k":true}', True), (b'[1,2]', b'[1,3]', False)):
+                    if leaf_a[:1] in b'{[' and depth == lim:
+                        continue
+                    ta = '*%d:%s:%s:%s' % (depth, op.hex(), leaf_a.hex(), cl.hex())
+                    tb = '*%d:%s:%s:%s' % (depth, op.hex(), leaf_b.hex(), cl.hex())
+                    ops = ['parse 1 2 %s 0' % ta, 'parse 2 2 %s 0' % tb, 'cmpx 1 2 1', 'cmpx 1 2 0', 'dup 3 1 1', 'cmpx 1 3 1', 'del 1', 'del 2', 'del 3']
+                    cases.append((cid, 'default', ops))
+                    a_dummy = Node('z')
+                    expect[cid] = ({2: ('deep-%d' % depth, e, None), 3: ('deep-%d-ci' % depth, e, None), 5: ('deep-%d-duplicate' % depth, True, None)}, a_dummy, 1)
+                    cid += 1
+        for kindc in 'ao':
+            ops = ['deepchain 1 %s 3000' % kindc, 'deepchain 2 %s 3000' % kindc, 'deepchain 3 %s 2999' % kindc, 'deepchain 4 %s 3000 1' % kindc,
+                   'cmpx 1 2 1', 'cmpx 1 3 1', 'cmpx 1 4 0', 'del 1', 'del 2', 'del 3', 'del 4']
+            cases.append((cid, 'default', ops))
+            expect[cid] = ({4: ('deep-3000', True, None), 5: ('deep-3000-vs-2999', False, None), 6: ('deep-3000-vs-elder', False, None)}, Node('z'), 1)
+            cid += 1
+        count = 0
     for i in range(count):
         cs = rng.randrange(2)
         a = treegen.gen_tree(rng, maxdepth=rng.choice([1, 2, 3, 4]), valid_utf8=False, finite=rng.random() < 0.85, distinct_keys=True, const_keys=True, fold_distinct=not cs)
